@@ -1,1 +1,1245 @@
-fn main(){}
+//! C05 — MULTI/EXEC is all-or-nothing and equals the sequential run; WATCH aborts on change.
+//!
+//! Tier 1 (`conn_scripts`): the production connection-level state machine
+//! (`OptimizedConnectionHandler`, hook `verif_hooks::run_connection`). Client A runs a
+//! generated transaction script, client B's writes are placed by the generator between A's
+//! commands; both are real handlers sharing one `ShardedActorState`, driven in lock-step over
+//! `tokio::io::duplex` (send one command, read exactly one reply with the strict decoder).
+//! Oracle: a twin server running the same prefix and then A's body *outside* a transaction
+//! (expected EXEC array and final keyspace), keyspace dumps around every queued command, and a
+//! WATCH expectation computed from full typed value dumps at WATCH time and at EXEC time.
+//!
+//! Tier 2 (`exec_scripts`): the executor-level MULTI/EXEC/WATCH of one `CommandExecutor`
+//! (`src/redis/executor/transaction_ops.rs`), same scripts single-client.
+
+use proptest::prelude::*;
+use proptest::strategy::BoxedStrategy;
+use redis_sim::production::{verif_hooks, ConnectionConfig, ShardedActorState};
+use redis_sim::redis::CommandExecutor;
+use serde::{Deserialize, Serialize};
+use serde_json::json;
+use std::pin::Pin;
+use std::task::Poll;
+use tokio::io::{AsyncRead, AsyncWriteExt, DuplexStream, ReadBuf};
+use vcore::dump::{dump_async, dump_executor, Dump, KeyDump};
+use vcore::gen::GenOpts;
+use vcore::resp::{decode_reply, show_argv, Argv, DecodeError, Reply};
+use vcore::{CaseCtx, Level, Session};
+
+const KF_WATCH_GET: &str = "KF-C05-01";
+const KF_CONN_LEVEL: &str = "KF-C05-02";
+
+/// scheduler turns a handler gets to answer one command (a command causes a handful of
+/// messages between the handler and the shard actors; nothing waits for time or real I/O)
+const REPLY_TURNS: usize = 20_000;
+
+fn b(s: &str) -> Vec<u8> {
+    s.as_bytes().to_vec()
+}
+
+fn argv(parts: &[&str]) -> Argv {
+    parts.iter().map(|s| s.as_bytes().to_vec()).collect()
+}
+
+// ---------------------------------------------------------------------------------------
+// script
+// ---------------------------------------------------------------------------------------
+
+/// Keys A may watch and B may touch: the first 8 keys of the shared pool (spread over shards,
+/// one with a space, one tagged pair) — some exist with each of the five types, some are
+/// missing, depending on the generated setup.
+const NKEYS: usize = 8;
+
+fn key_of(i: u16) -> Vec<u8> {
+    vcore::gen::KEY_POOL[(i as usize * NKEYS) >> 16].to_vec()
+}
+
+#[derive(Clone, Debug, Serialize, Deserialize)]
+enum BodyItem {
+    /// a syntactically valid data command (may fail at run time: WRONGTYPE, overflow, …)
+    Cmd(Argv),
+    /// unknown command name
+    Unknown(Argv),
+    /// known command, wrong number of arguments
+    WrongArity(Argv),
+    NestedMulti,
+    WatchInside(u16),
+    /// commands the connection answers itself outside a transaction (PING is served by the
+    /// shard path as well; ACL WHOAMI / HELLO / AUTH are connection-level)
+    ConnLevel(Argv),
+}
+
+impl BodyItem {
+    fn argv(&self) -> Argv {
+        match self {
+            BodyItem::Cmd(a) | BodyItem::Unknown(a) | BodyItem::WrongArity(a) | BodyItem::ConnLevel(a) => a.clone(),
+            BodyItem::NestedMulti => argv(&["MULTI"]),
+            BodyItem::WatchInside(k) => vec![b("WATCH"), key_of(*k)],
+        }
+    }
+}
+
+#[derive(Clone, Debug, Serialize, Deserialize)]
+enum WatchStep {
+    Watch(Vec<u16>),
+    Unwatch,
+}
+
+#[derive(Clone, Debug, Serialize, Deserialize)]
+enum BOp {
+    /// a generated write command
+    Write(Argv),
+    /// change the key's value, then restore exactly the previous value (type-specific)
+    Touch(u16),
+    /// rewrite the current value with itself (SET k <same>, SADD existing member, …)
+    Rewrite(u16),
+    /// a change that certainly alters the value whatever the type (or creates the key)
+    Change(u16),
+    /// delete the key
+    Del(u16),
+}
+
+#[derive(Clone, Debug, Serialize, Deserialize)]
+struct BAction {
+    /// fraction selecting the position "before A's step #j", j in 0..=last step (never after EXEC)
+    at: u16,
+    op: BOp,
+}
+
+#[derive(Clone, Debug, Serialize, Deserialize)]
+struct Script {
+    shards: u8,
+    /// seed one key of each of the five types before anything else
+    seed_types: bool,
+    setup: Vec<Argv>,
+    watches: Vec<WatchStep>,
+    body: Vec<BodyItem>,
+    /// EXEC (true) or DISCARD (false)
+    exec: bool,
+    b: Vec<BAction>,
+    /// after the transaction: B changes a key A had watched, then A runs MULTI / RPUSH / EXEC,
+    /// which must apply (EXEC, DISCARD and aborts forget the watches)
+    tail: Option<u16>,
+}
+
+fn body_opts() -> GenOpts {
+    GenOpts {
+        binary_names: false,
+        flush: true,
+        scan: false,
+        random: false, // SPOP/RANDOMKEY choose by hash-map order: the twin may choose differently
+        two_key: true,
+        multi_key: true,
+        keys_cmd: true,
+        expiry: false, // replies and TTLs depend on the wall clock (ProductionTimeSource)
+        floats: true,
+        key_pool: NKEYS,
+    }
+}
+
+fn tame(mut a: Argv) -> Argv {
+    let name = vcore::gen::cmd_name(&a);
+    if (name == "SETRANGE" || name == "SETBIT" || name == "GETBIT") && a.len() >= 3 {
+        if let Ok(n) = String::from_utf8_lossy(&a[2]).parse::<u64>() {
+            if n > 4096 {
+                a[2] = b("77");
+            }
+        }
+    }
+    a
+}
+
+fn is_write(a: &Argv) -> bool {
+    !matches!(
+        vcore::gen::cmd_name(a).as_str(),
+        "GET" | "STRLEN" | "GETRANGE" | "GETBIT" | "MGET" | "EXISTS" | "TYPE" | "DBSIZE" | "KEYS" | "LLEN" | "LINDEX"
+            | "LRANGE" | "SMEMBERS" | "SISMEMBER" | "SCARD" | "HGET" | "HGETALL" | "HKEYS" | "HVALS" | "HLEN"
+            | "HEXISTS" | "ZRANGE" | "ZREVRANGE" | "ZSCORE" | "ZRANK" | "ZCARD" | "ZCOUNT" | "ZRANGEBYSCORE" | "PING"
+            | "ECHO" | "TTL" | "PTTL"
+    )
+}
+
+fn data_cmd() -> BoxedStrategy<Argv> {
+    vcore::gen::data_command(&body_opts()).prop_map(tame).boxed()
+}
+
+fn write_cmd() -> BoxedStrategy<Argv> {
+    // writes only, by construction: pick from the grammar's write commands
+    let k = || any::<u16>().prop_map(key_of);
+    let v = vcore::gen::value;
+    let m = || vcore::gen::member(&body_opts());
+    prop_oneof![
+        4 => (k(), v()).prop_map(|(k, v)| vec![b("SET"), k, v]),
+        2 => (k(), v()).prop_map(|(k, v)| vec![b("APPEND"), k, v]),
+        2 => k().prop_map(|k| vec![b("INCR"), k]),
+        2 => k().prop_map(|k| vec![b("DEL"), k]),
+        2 => (k(), v()).prop_map(|(k, v)| vec![b("RPUSH"), k, v]),
+        1 => k().prop_map(|k| vec![b("LPOP"), k]),
+        2 => (k(), m()).prop_map(|(k, m)| vec![b("SADD"), k, m]),
+        1 => (k(), m()).prop_map(|(k, m)| vec![b("SREM"), k, m]),
+        2 => (k(), m(), v()).prop_map(|(k, f, v)| vec![b("HSET"), k, f, v]),
+        1 => (k(), m()).prop_map(|(k, f)| vec![b("HDEL"), k, f]),
+        2 => (k(), vcore::gen::score_arg(), m()).prop_map(|(k, s, m)| vec![b("ZADD"), k, s, m]),
+        1 => (k(), m()).prop_map(|(k, m)| vec![b("ZREM"), k, m]),
+        1 => (k(), k()).prop_map(|(a, c)| vec![b("RENAME"), a, c]),
+        3 => data_cmd(),
+    ]
+    .boxed()
+}
+
+fn body_item(conn_level: bool) -> BoxedStrategy<BodyItem> {
+    let mut alts: Vec<(u32, BoxedStrategy<BodyItem>)> = vec![
+        (30, data_cmd().prop_map(BodyItem::Cmd).boxed()),
+        (14, write_cmd().prop_map(BodyItem::Cmd).boxed()),
+        (
+            1,
+            prop_oneof![
+                Just(vec![b("NOSUCHCMD"), b("x")]),
+                Just(vec![b("GETT"), b("k0")]),
+                Just(vec![b("FOO\r\nBAR")]),
+            ]
+            .prop_map(BodyItem::Unknown)
+            .boxed(),
+        ),
+        (
+            1,
+            prop_oneof![
+                Just(vec![b("GET")]),
+                Just(vec![b("SET"), b("k0")]),
+                Just(vec![b("INCR")]),
+                Just(vec![b("HSET"), b("k2"), b("f")]),
+                Just(vec![b("RENAME"), b("k0")]),
+            ]
+            .prop_map(BodyItem::WrongArity)
+            .boxed(),
+        ),
+        (2, Just(BodyItem::NestedMulti).boxed()),
+        (2, any::<u16>().prop_map(BodyItem::WatchInside).boxed()),
+        (
+            2,
+            prop_oneof![Just(vec![b("PING")]), Just(vec![b("ECHO"), b("hi")]), Just(vec![b("PING"), b("x")])]
+                .prop_map(BodyItem::ConnLevel)
+                .boxed(),
+        ),
+    ];
+    if conn_level {
+        alts.push((
+            2,
+            prop_oneof![
+                Just(vec![b("ACL"), b("WHOAMI")]),
+                Just(vec![b("HELLO")]),
+                Just(vec![b("AUTH"), b("default"), b("nopass")]),
+                Just(vec![b("ACL"), b("USERS")]),
+            ]
+            .prop_map(BodyItem::ConnLevel)
+            .boxed(),
+        ));
+    }
+    proptest::strategy::Union::new_weighted(alts).boxed()
+}
+
+fn b_action() -> BoxedStrategy<BAction> {
+    (
+        any::<u16>(),
+        prop_oneof![
+            4 => write_cmd().prop_map(BOp::Write),
+            3 => any::<u16>().prop_map(BOp::Touch),
+            2 => any::<u16>().prop_map(BOp::Rewrite),
+            4 => any::<u16>().prop_map(BOp::Change),
+            1 => any::<u16>().prop_map(BOp::Del),
+        ],
+    )
+        .prop_map(|(at, op)| BAction { at, op })
+        .boxed()
+}
+
+fn script(conn_level: bool) -> BoxedStrategy<Script> {
+    (
+        prop_oneof![1 => Just(1u8), 1 => Just(4u8)],
+        prop_oneof![3 => Just(true), 1 => Just(false)],
+        proptest::collection::vec(write_cmd(), 0..6),
+        proptest::collection::vec(
+            prop_oneof![
+                8 => proptest::collection::vec(any::<u16>(), 1..4).prop_map(WatchStep::Watch),
+                1 => Just(WatchStep::Unwatch),
+            ],
+            0..3,
+        ),
+        proptest::collection::vec(body_item(conn_level), 0..9),
+        prop_oneof![5 => Just(true), 1 => Just(false)],
+        proptest::collection::vec(b_action(), 0..5),
+        prop_oneof![2 => Just(None), 1 => any::<u16>().prop_map(Some)],
+    )
+        .prop_map(|(shards, seed_types, setup, watches, body, exec, b, tail)| Script {
+            shards,
+            seed_types,
+            setup,
+            watches,
+            body,
+            exec,
+            b,
+            tail,
+        })
+        .boxed()
+}
+
+fn seed_commands() -> Vec<Argv> {
+    vec![
+        argv(&["SET", "k0", "10"]),
+        argv(&["RPUSH", "k1", "a", "b"]),
+        argv(&["HSET", "k2", "f", "v"]),
+        argv(&["SADD", "k3", "a", "b"]),
+        argv(&["ZADD", "{t}a", "1", "a", "2", "b"]),
+    ]
+}
+
+// ---------------------------------------------------------------------------------------
+// reply normalisation (hash-map order differs between two server instances)
+// ---------------------------------------------------------------------------------------
+
+fn normalise(cmd: &Argv, r: &Reply) -> Reply {
+    match vcore::gen::cmd_name(cmd).as_str() {
+        "KEYS" | "SMEMBERS" | "HKEYS" | "HVALS" => r.sorted(),
+        "HGETALL" => r.sorted_pairs(),
+        _ => r.clone(),
+    }
+}
+
+// ---------------------------------------------------------------------------------------
+// lock-step client over tokio::io::duplex
+// ---------------------------------------------------------------------------------------
+
+struct Client {
+    name: &'static str,
+    io: DuplexStream,
+    buf: Vec<u8>,
+    handler: tokio::task::JoinHandle<()>,
+}
+
+impl Client {
+    fn connect(name: &'static str, state: &ShardedActorState) -> Client {
+        let (client, server) = tokio::io::duplex(1 << 16);
+        let handler = tokio::spawn(verif_hooks::run_connection(server, state.clone(), ConnectionConfig::default()));
+        Client {
+            name,
+            io: client,
+            buf: Vec::new(),
+            handler,
+        }
+    }
+
+    /// Send one command, read exactly one reply. Err = the handler did not produce a
+    /// well-formed reply (closed the connection, panicked, wrote garbage, stayed silent).
+    async fn call(&mut self, cmd: &Argv) -> Result<Reply, String> {
+        let what_s = format!("client {} sent {}", self.name, show_argv(cmd));
+        let what = || what_s.clone();
+        if !self.buf.is_empty() {
+            return Err(format!("{}: {} unsolicited bytes were pending: {:?}", what(), self.buf.len(), vcore::show(&self.buf)));
+        }
+        self.io
+            .write_all(&vcore::resp::encode_command(cmd))
+            .await
+            .map_err(|e| format!("{}: write failed: {}", what(), e))?;
+        let mut turns = 0usize;
+        loop {
+            match decode_reply(&self.buf) {
+                Ok((r, n)) => {
+                    self.buf.drain(..n);
+                    // one more turn: anything the handler writes beyond one reply is a defect
+                    tokio::task::yield_now().await;
+                    match self.poll_some().await? {
+                        Some(0) => return Err(format!("{}: the server closed the connection after replying {}", what(), r.show())),
+                        Some(_) => return Err(format!("{}: more than one reply: extra bytes {:?}", what(), vcore::show(&self.buf))),
+                        None => {}
+                    }
+                    return Ok(r);
+                }
+                Err(DecodeError::Incomplete) => {}
+                Err(DecodeError::Malformed(m)) => {
+                    return Err(format!("{}: reply is not well-formed RESP ({}): {:?}", what(), m, vcore::show(&self.buf)))
+                }
+            }
+            match self.poll_some().await? {
+                Some(0) => {
+                    let p = vcore::runner::take_last_panic();
+                    return Err(match p {
+                        Some(p) => format!("{}: the connection handler panicked: {}", what(), p),
+                        None => format!("{}: the server closed the connection without a reply", what()),
+                    });
+                }
+                Some(_) => {}
+                None => {
+                    turns += 1;
+                    if turns > REPLY_TURNS {
+                        return Err(format!(
+                            "{}: no reply after {} scheduler turns (handler finished: {}) — the client would wait forever",
+                            what(),
+                            turns,
+                            self.handler.is_finished()
+                        ));
+                    }
+                    tokio::task::yield_now().await;
+                }
+            }
+        }
+    }
+
+    /// One non-blocking read: Some(n) bytes appended (0 = EOF), None = nothing available now.
+    async fn poll_some(&mut self) -> Result<Option<usize>, String> {
+        let mut tmp = [0u8; 8192];
+        let io = &mut self.io;
+        let r = std::future::poll_fn(|cx| {
+            let mut rb = ReadBuf::new(&mut tmp);
+            match Pin::new(&mut *io).poll_read(cx, &mut rb) {
+                Poll::Ready(Ok(())) => Poll::Ready(Ok(Some(rb.filled().len()))),
+                Poll::Ready(Err(e)) => Poll::Ready(Err(e.to_string())),
+                Poll::Pending => Poll::Ready(Ok(None)),
+            }
+        })
+        .await?;
+        if let Some(n) = r {
+            self.buf.extend_from_slice(&tmp[..n]);
+        }
+        Ok(r)
+    }
+}
+
+async fn direct(state: &ShardedActorState, a: Argv) -> Reply {
+    match vcore::resp::parse_zc(&a) {
+        Ok(cmd) => Reply::from_resp(&state.execute(&cmd).await),
+        Err(e) => Reply::Error(e.into_bytes()),
+    }
+}
+
+/// Side channel: the visible keyspace through ordinary read commands sent straight to the
+/// shared state (not through any connection).
+async fn dump_state(state: &ShardedActorState) -> Dump {
+    let extra: Vec<Vec<u8>> = (0..NKEYS).map(|i| vcore::gen::KEY_POOL[i].to_vec()).collect();
+    dump_async(|a| direct(state, a), &extra).await
+}
+
+// ---------------------------------------------------------------------------------------
+// B's dynamic operations, resolved to concrete commands from the current dump
+// ---------------------------------------------------------------------------------------
+
+fn first_elems(v: &Reply) -> Vec<Vec<u8>> {
+    v.as_array()
+        .map(|a| a.iter().filter_map(|e| e.as_bulk().map(|x| x.to_vec())).collect())
+        .unwrap_or_default()
+}
+
+fn resolve_b(op: &BOp, d: &Dump) -> Vec<Argv> {
+    let fresh = b("zz-fresh-member");
+    match op {
+        BOp::Write(a) => vec![a.clone()],
+        BOp::Del(k) => vec![vec![b("DEL"), key_of(*k)]],
+        BOp::Change(k) => {
+            let key = key_of(*k);
+            match d.get(&key).map(|kd| kd.ty.as_str()) {
+                None | Some("string") => vec![vec![b("APPEND"), key, b("!")]],
+                Some("list") => vec![vec![b("RPUSH"), key, b("!")]],
+                Some("set") => vec![vec![b("SADD"), key, fresh]],
+                Some("hash") => vec![vec![b("HSET"), key, fresh, b("1")]],
+                _ => vec![vec![b("ZADD"), key, b("99"), fresh]],
+            }
+        }
+        BOp::Touch(k) => {
+            let key = key_of(*k);
+            match d.get(&key) {
+                None => vec![vec![b("SET"), key.clone(), b("tmp")], vec![b("DEL"), key]],
+                Some(kd) => match kd.ty.as_str() {
+                    "string" => {
+                        let old = kd.value.as_bulk().unwrap_or(b"").to_vec();
+                        vec![vec![b("SET"), key.clone(), b("tmp-other-value")], vec![b("SET"), key, old]]
+                    }
+                    "list" => vec![vec![b("RPUSH"), key.clone(), b("tmp")], vec![b("RPOP"), key]],
+                    "set" => vec![vec![b("SADD"), key.clone(), fresh.clone()], vec![b("SREM"), key, fresh]],
+                    "hash" => vec![vec![b("HSET"), key.clone(), fresh.clone(), b("1")], vec![b("HDEL"), key, fresh]],
+                    _ => vec![vec![b("ZADD"), key.clone(), b("99"), fresh.clone()], vec![b("ZREM"), key, fresh]],
+                },
+            }
+        }
+        BOp::Rewrite(k) => {
+            let key = key_of(*k);
+            match d.get(&key) {
+                None => vec![vec![b("DEL"), key]],
+                Some(kd) => {
+                    let el = first_elems(&kd.value);
+                    match kd.ty.as_str() {
+                        "string" => vec![vec![b("SET"), key, kd.value.as_bulk().unwrap_or(b"").to_vec()]],
+                        "list" if !el.is_empty() => vec![vec![b("LSET"), key, b("0"), el[0].clone()]],
+                        "set" if !el.is_empty() => vec![vec![b("SADD"), key, el[0].clone()]],
+                        "hash" if el.len() >= 2 => vec![vec![b("HSET"), key, el[0].clone(), el[1].clone()]],
+                        "zset" if el.len() >= 2 => vec![vec![b("ZADD"), key, el[1].clone(), el[0].clone()]],
+                        _ => vec![vec![b("EXISTS"), key]],
+                    }
+                }
+            }
+        }
+    }
+}
+
+// ---------------------------------------------------------------------------------------
+// the oracle pieces shared by both tiers
+// ---------------------------------------------------------------------------------------
+
+/// What GET shows for a key: the connection's WATCH snapshot (finding KF-C05-01).
+fn get_view(k: Option<&KeyDump>) -> Reply {
+    match k {
+        None => Reply::Nil,
+        Some(kd) if kd.ty == "string" => kd.value.clone(),
+        Some(_) => Reply::Error(b"WRONGTYPE".to_vec()),
+    }
+}
+
+#[derive(Debug)]
+struct WatchRec {
+    key: Vec<u8>,
+    at_watch: Option<KeyDump>,
+}
+
+fn diff_dumps(a: &Dump, b_: &Dump) -> String {
+    let mut s = String::new();
+    let keys: std::collections::BTreeSet<&Vec<u8>> = a.keys().chain(b_.keys()).collect();
+    for k in keys {
+        if a.get(k) != b_.get(k) {
+            s.push_str(&format!(
+                "    key {:?}: {} vs {}\n",
+                vcore::show(k),
+                a.get(k).map(|d| format!("[{}] {}", d.ty, d.value.show())).unwrap_or_else(|| "(missing)".into()),
+                b_.get(k).map(|d| format!("[{}] {}", d.ty, d.value.show())).unwrap_or_else(|| "(missing)".into()),
+            ));
+        }
+    }
+    s
+}
+
+fn is_nil(r: &Reply) -> bool {
+    matches!(r, Reply::Nil | Reply::NilArray)
+}
+
+fn is_queued(r: &Reply) -> bool {
+    *r == Reply::Simple(b"QUEUED".to_vec())
+}
+
+struct TxObs {
+    /// body commands that were answered +QUEUED, in order
+    queued: Vec<Argv>,
+    /// a queue-time error was reported for a command other than MULTI/WATCH
+    flagged: bool,
+}
+
+/// Check one queue-time reply; update the observation.
+fn on_queue_reply(item: &BodyItem, r: &Reply, obs: &mut TxObs) -> Result<(), String> {
+    let a = item.argv();
+    match item {
+        BodyItem::NestedMulti | BodyItem::WatchInside(_) => {
+            if !r.is_error() {
+                return Err(format!("{} inside MULTI answered {} — expected an error reply", show_argv(&a), r.show()));
+            }
+        }
+        BodyItem::Cmd(_) => {
+            // the grammar also produces option combinations the parser rejects (SET … NX XX):
+            // those are queue-time errors; what the production parser accepts must be queued
+            let parses = vcore::resp::parse_zc(&a).is_ok();
+            if parses {
+                if !is_queued(r) {
+                    return Err(format!(
+                        "valid command {} inside MULTI answered {} — expected +QUEUED (no result before EXEC)",
+                        show_argv(&a),
+                        r.show()
+                    ));
+                }
+                obs.queued.push(a);
+            } else if r.is_error() {
+                obs.flagged = true;
+            } else {
+                return Err(format!(
+                    "{} (rejected by the command parser) inside MULTI answered {} — expected an error reply",
+                    show_argv(&a),
+                    r.show()
+                ));
+            }
+        }
+        BodyItem::Unknown(_) | BodyItem::WrongArity(_) | BodyItem::ConnLevel(_) => {
+            if is_queued(r) {
+                obs.queued.push(a);
+            } else if r.is_error() {
+                obs.flagged = true;
+            } else {
+                return Err(format!(
+                    "{} inside MULTI answered {} — neither +QUEUED nor an error (a result before EXEC)",
+                    show_argv(&a),
+                    r.show()
+                ));
+            }
+        }
+    }
+    Ok(())
+}
+
+// ---------------------------------------------------------------------------------------
+// tier 1: connection handlers
+// ---------------------------------------------------------------------------------------
+
+struct ConnOutcome {
+    nontrivial: bool,
+    labels: Vec<&'static str>,
+    /// findings tolerated (checked with ctx by the caller, which owns ctx)
+    watch_get_case: bool,
+}
+
+/// What the caller must decide about known findings (ctx is not Send; the async part only
+/// reports what it saw).
+enum Verdict {
+    Ok(ConnOutcome),
+    /// watched non-string key changed unnoticed (exact matcher satisfied); `rest` = the result
+    /// of checking the script as an *applied* transaction
+    WatchGet(String, Result<ConnOutcome, String>),
+    Fail(String),
+}
+
+async fn run_conn_script(sc: &Script) -> Verdict {
+    match run_conn_script_inner(sc).await {
+        Ok(v) => v,
+        Err(e) => Verdict::Fail(e),
+    }
+}
+
+async fn run_conn_script_inner(sc: &Script) -> Result<Verdict, String> {
+    let shards = sc.shards.max(1) as usize;
+    let state = ShardedActorState::with_shards(shards);
+    let mut a = Client::connect("A", &state);
+    let mut bc = Client::connect("B", &state);
+    let mut labels: Vec<&'static str> = Vec::new();
+    // every command that had an effect on the real server before EXEC, in order (for the twin)
+    let mut effects: Vec<Argv> = Vec::new();
+
+    if sc.seed_types {
+        for c in seed_commands() {
+            bc.call(&c).await?;
+            effects.push(c);
+        }
+    }
+    for c in &sc.setup {
+        bc.call(c).await?;
+        effects.push(c.clone());
+    }
+
+    // A's steps
+    #[derive(Clone)]
+    enum Step {
+        Watch(Vec<Vec<u8>>),
+        Unwatch,
+        Multi,
+        Body(usize),
+        End,
+    }
+    let mut steps: Vec<Step> = Vec::new();
+    for w in &sc.watches {
+        match w {
+            WatchStep::Watch(ks) => {
+                let mut keys: Vec<Vec<u8>> = ks.iter().map(|k| key_of(*k)).collect();
+                keys.dedup();
+                steps.push(Step::Watch(keys));
+            }
+            WatchStep::Unwatch => steps.push(Step::Unwatch),
+        }
+    }
+    steps.push(Step::Multi);
+    for i in 0..sc.body.len() {
+        steps.push(Step::Body(i));
+    }
+    steps.push(Step::End);
+    // B's actions by position (stable order)
+    let mut b_at: Vec<Vec<&BOp>> = vec![Vec::new(); steps.len()];
+    for act in &sc.b {
+        let j = (act.at as usize * steps.len()) >> 16;
+        b_at[j].push(&act.op);
+    }
+
+    let mut watched: Vec<WatchRec> = Vec::new();
+    let mut obs = TxObs {
+        queued: Vec::new(),
+        flagged: false,
+    };
+    let mut in_multi = false;
+    let mut b_after_watch = false;
+    let mut exec_reply: Option<Reply> = None;
+    let mut dump_before_end: Dump = Dump::new();
+
+    for (j, step) in steps.iter().enumerate() {
+        for op in &b_at[j] {
+            let d = dump_state(&state).await;
+            for c in resolve_b(op, &d) {
+                let r = bc.call(&c).await?;
+                if in_multi && is_queued(&r) {
+                    return Err(format!("client B's {} was answered +QUEUED although only A is inside MULTI", show_argv(&c)));
+                }
+                effects.push(c);
+            }
+            if !watched.is_empty() {
+                b_after_watch = true;
+            }
+        }
+        match step {
+            Step::Watch(keys) => {
+                let mut c = vec![b("WATCH")];
+                c.extend(keys.iter().cloned());
+                let r = a.call(&c).await?;
+                if r != Reply::ok() {
+                    return Err(format!("{} answered {}", show_argv(&c), r.show()));
+                }
+                let d = dump_state(&state).await;
+                for k in keys {
+                    watched.push(WatchRec {
+                        key: k.clone(),
+                        at_watch: d.get(k).cloned(),
+                    });
+                }
+            }
+            Step::Unwatch => {
+                let r = a.call(&argv(&["UNWATCH"])).await?;
+                if r != Reply::ok() {
+                    return Err(format!("UNWATCH answered {}", r.show()));
+                }
+                watched.clear();
+                b_after_watch = false;
+            }
+            Step::Multi => {
+                let r = a.call(&argv(&["MULTI"])).await?;
+                if r != Reply::ok() {
+                    return Err(format!("MULTI answered {}", r.show()));
+                }
+                in_multi = true;
+            }
+            Step::Body(i) => {
+                let item = &sc.body[*i];
+                let before = dump_state(&state).await;
+                let r = a.call(&item.argv()).await?;
+                on_queue_reply(item, &r, &mut obs)?;
+                let after = dump_state(&state).await;
+                if before != after {
+                    return Err(format!(
+                        "{} sent inside MULTI (answered {}) changed the keyspace before EXEC:\n{}",
+                        show_argv(&item.argv()),
+                        r.show(),
+                        diff_dumps(&before, &after)
+                    ));
+                }
+            }
+            Step::End => {
+                dump_before_end = dump_state(&state).await;
+                let c = if sc.exec { argv(&["EXEC"]) } else { argv(&["DISCARD"]) };
+                exec_reply = Some(a.call(&c).await?);
+            }
+        }
+    }
+    let end_reply = exec_reply.expect("script has an end step");
+    let dump_after = dump_state(&state).await;
+
+    // ---- WATCH expectation from full typed values
+    let changed: Vec<&WatchRec> = watched
+        .iter()
+        .filter(|w| w.at_watch.as_ref() != dump_before_end.get(&w.key))
+        .collect();
+    let must_abort_watch = !changed.is_empty();
+    // exact matcher of KF-C05-01: every changed watched key looks the same through GET
+    let only_get_invisible = must_abort_watch
+        && changed
+            .iter()
+            .all(|w| get_view(w.at_watch.as_ref()) == get_view(dump_before_end.get(&w.key)));
+
+    if !watched.is_empty() {
+        labels.push("with_watch");
+        if b_after_watch {
+            labels.push("b_write_after_watch");
+        }
+        if must_abort_watch {
+            labels.push("watched_value_changed");
+        } else if b_after_watch {
+            labels.push("watched_value_same_after_b");
+        }
+        if watched.iter().any(|w| w.at_watch.as_ref().map(|d| d.ty != "string").unwrap_or(false)) {
+            labels.push("watch_non_string");
+        }
+        if watched.iter().any(|w| w.at_watch.is_none()) {
+            labels.push("watch_missing_key");
+        }
+    }
+    if obs.flagged {
+        labels.push("queue_time_error");
+    }
+    labels.push(if sc.exec { "exec" } else { "discard" });
+    labels.push(if shards > 1 { "shards:n" } else { "shards:1" });
+
+    let writes = obs.queued.iter().filter(|c| is_write(c)).count();
+    let nontrivial = (obs.queued.len() >= 2 && writes >= 1) || (!watched.is_empty() && b_after_watch);
+
+    let unchanged = |why: &str| -> Result<(), String> {
+        if dump_after != dump_before_end {
+            return Err(format!(
+                "{} but the keyspace changed:\n{}",
+                why,
+                diff_dumps(&dump_before_end, &dump_after)
+            ));
+        }
+        Ok(())
+    };
+
+    let finish = |a: Client, bc: Client| {
+        drop(a);
+        drop(bc);
+    };
+
+    let outcome = |watch_get_case: bool, labels: Vec<&'static str>| ConnOutcome {
+        nontrivial,
+        labels,
+        watch_get_case,
+    };
+
+    if !sc.exec {
+        if end_reply != Reply::ok() {
+            return Err(format!("DISCARD answered {}", end_reply.show()));
+        }
+        unchanged("DISCARD")?;
+    } else if obs.flagged {
+        // queue-time error => EXECABORT (a failed WATCH at the same time may answer nil)
+        let ok = end_reply.error_code().as_deref() == Some("EXECABORT") || (must_abort_watch && is_nil(&end_reply));
+        if !ok {
+            return Err(format!(
+                "a command was rejected at queue time, EXEC must answer EXECABORT; it answered {}",
+                end_reply.show()
+            ));
+        }
+        unchanged("EXEC after a queue-time error (EXECABORT)")?;
+    } else {
+        let applied_check = async {
+            // twin: same effects, then the queued commands outside a transaction
+            let twin = ShardedActorState::with_shards(shards);
+            let mut tb = Client::connect("twin-B", &twin);
+            for c in &effects {
+                tb.call(c).await?;
+            }
+            let mut ta = Client::connect("twin-A", &twin);
+            let mut expected: Vec<Reply> = Vec::new();
+            for c in &obs.queued {
+                expected.push(normalise(c, &ta.call(c).await?));
+            }
+            let twin_dump = dump_state(&twin).await;
+            let got = match &end_reply {
+                Reply::Array(v) => v,
+                other => {
+                    return Err(format!(
+                        "EXEC answered {} — expected an array with the {} results",
+                        other.show(),
+                        obs.queued.len()
+                    ))
+                }
+            };
+            if got.len() != obs.queued.len() {
+                return Err(format!(
+                    "EXEC returned {} results for {} queued commands: {}",
+                    got.len(),
+                    obs.queued.len(),
+                    end_reply.show()
+                ));
+            }
+            for (i, (g, e)) in got.iter().zip(expected.iter()).enumerate() {
+                let g = normalise(&obs.queued[i], g);
+                if g != *e {
+                    return Err(format!(
+                        "EXEC result #{} for {} is {} but the same command run outside a transaction after the same prefix answers {}\n  queued: {}",
+                        i,
+                        show_argv(&obs.queued[i]),
+                        g.show(),
+                        e.show(),
+                        obs.queued.iter().map(|c| show_argv(c)).collect::<Vec<_>>().join(" | ")
+                    ));
+                }
+            }
+            if dump_after != twin_dump {
+                return Err(format!(
+                    "keyspace after EXEC differs from running the body sequentially (left: after EXEC, right: sequential twin):\n{}",
+                    diff_dumps(&dump_after, &twin_dump)
+                ));
+            }
+            Ok::<(), String>(())
+        };
+        if must_abort_watch {
+            if is_nil(&end_reply) {
+                unchanged("EXEC answered nil (WATCH failed)")?;
+            } else {
+                let detail = changed
+                    .iter()
+                    .map(|w| {
+                        format!(
+                            "    watched {:?}: at WATCH {} — at EXEC {}",
+                            vcore::show(&w.key),
+                            w.at_watch.as_ref().map(|d| format!("[{}] {}", d.ty, d.value.show())).unwrap_or_else(|| "(missing)".into()),
+                            dump_before_end.get(&w.key).map(|d| format!("[{}] {}", d.ty, d.value.show())).unwrap_or_else(|| "(missing)".into())
+                        )
+                    })
+                    .collect::<Vec<_>>()
+                    .join("\n");
+                let msg = format!(
+                    "the value of a watched key differs between WATCH and EXEC, EXEC must answer nil and apply nothing; it answered {}\n{}",
+                    end_reply.show(),
+                    detail
+                );
+                if only_get_invisible {
+                    // KF-C05-01 candidate: check the rest as an applied transaction
+                    let rest = applied_check.await.map(|()| outcome(true, labels.clone()));
+                    finish(a, bc);
+                    let rest = rest.map_err(|e| format!("{}\n  and, taken as an applied transaction: {}", msg, e));
+                    return Ok(Verdict::WatchGet(msg, rest));
+                }
+                return Err(msg);
+            }
+        } else {
+            if is_nil(&end_reply) {
+                return Err(format!(
+                    "no watched key changed its value between WATCH and EXEC ({} watched), EXEC must apply; it answered {}",
+                    watched.len(),
+                    end_reply.show()
+                ));
+            }
+            applied_check.await?;
+        }
+    }
+
+    // ---- tail: the watches are forgotten after EXEC / DISCARD / abort
+    if let Some(tk) = sc.tail {
+        if let Some(w) = watched.first() {
+            labels.push("tail_after_transaction");
+            let d = dump_state(&state).await;
+            let wk = (0..NKEYS).find(|i| vcore::gen::KEY_POOL[*i] == w.key.as_slice()).unwrap_or(0);
+            for c in resolve_b(&BOp::Change(key_idx(wk)), &d) {
+                bc.call(&c).await?;
+            }
+            let tail_key = key_of(tk);
+            let ty = dump_state(&state).await.get(&tail_key).map(|k| k.ty.clone());
+            let cmd = match ty.as_deref() {
+                None | Some("list") => vec![b("RPUSH"), tail_key.clone(), b("tail")],
+                _ => vec![b("EXISTS"), tail_key.clone()],
+            };
+            let before = dump_state(&state).await;
+            let r1 = a.call(&argv(&["MULTI"])).await?;
+            let r2 = a.call(&cmd).await?;
+            let r3 = a.call(&argv(&["EXEC"])).await?;
+            if r1 != Reply::ok() || !is_queued(&r2) {
+                return Err(format!("second transaction on the same connection: MULTI -> {}, {} -> {}", r1.show(), show_argv(&cmd), r2.show()));
+            }
+            match &r3 {
+                Reply::Array(v) if v.len() == 1 && !v[0].is_error() => {}
+                other => {
+                    return Err(format!(
+                        "after the first transaction ended (EXEC/DISCARD forget all watches) client B changed the previously watched key {:?}; a second MULTI / {} / EXEC without a new WATCH must apply, but EXEC answered {}",
+                        vcore::show(&w.key),
+                        show_argv(&cmd),
+                        other.show()
+                    ))
+                }
+            }
+            let after = dump_state(&state).await;
+            if cmd[0] == b("RPUSH") && before == after {
+                return Err("second transaction's RPUSH was acknowledged but not applied".into());
+            }
+        }
+    }
+    finish(a, bc);
+    Ok(Verdict::Ok(outcome(false, labels)))
+}
+
+fn has_conn_level(sc: &Script) -> bool {
+    sc.body.iter().any(|i| match i {
+        BodyItem::ConnLevel(a) => !matches!(vcore::gen::cmd_name(a).as_str(), "PING" | "ECHO"),
+        _ => false,
+    })
+}
+
+fn check_conn_script(sc: &Script, ctx: &mut CaseCtx<'_>) -> Result<(), String> {
+    if has_conn_level(sc) {
+        ctx.label("body_has_connection_level_command");
+        // KF-C05-02: excluded by construction while open (the probe covers the class)
+        if ctx.tolerate(KF_CONN_LEVEL) {
+            return Ok(());
+        }
+    }
+    let _ = vcore::runner::take_last_panic();
+    let verdict = vcore::block_on(run_conn_script(sc));
+    let out = match verdict {
+        Verdict::Ok(o) => o,
+        Verdict::Fail(e) => return Err(e),
+        Verdict::WatchGet(msg, rest) => {
+            // exact matcher satisfied: every watched key whose value changed shows the same
+            // GET result at WATCH and at EXEC time (the handler snapshots with GET)
+            if ctx.tolerate(KF_WATCH_GET) {
+                rest?
+            } else {
+                return Err(msg);
+            }
+        }
+    };
+    if let Some(p) = vcore::runner::take_last_panic() {
+        return Err(format!("a server task panicked during the script: {}", p));
+    }
+    for l in &out.labels {
+        ctx.label(l);
+    }
+    if out.watch_get_case {
+        ctx.label("kf01_watch_get_resynced");
+    }
+    if out.nontrivial {
+        ctx.nontrivial(&serde_json::to_string(sc).unwrap_or_default());
+    }
+    Ok(())
+}
+
+// ---------------------------------------------------------------------------------------
+// tier 2: executor-level MULTI/EXEC/WATCH
+// ---------------------------------------------------------------------------------------
+
+fn ex(e: &mut CommandExecutor, a: &Argv) -> Option<Reply> {
+    // a command the parser rejects never reaches the executor
+    vcore::resp::parse_zc(a).ok().map(|c| Reply::from_resp(&e.execute(&c)))
+}
+
+fn check_exec_script(sc: &Script, ctx: &mut CaseCtx<'_>) -> Result<(), String> {
+    let extra: Vec<Vec<u8>> = (0..NKEYS).map(|i| vcore::gen::KEY_POOL[i].to_vec()).collect();
+    let mut e = CommandExecutor::new();
+    let mut twin = CommandExecutor::new();
+    let both = |e: &mut CommandExecutor, twin: &mut CommandExecutor, c: &Argv| {
+        let r = ex(e, c);
+        let _ = ex(twin, c);
+        r
+    };
+    if sc.seed_types {
+        for c in seed_commands() {
+            both(&mut e, &mut twin, &c);
+        }
+    }
+    for c in &sc.setup {
+        both(&mut e, &mut twin, c);
+    }
+    // WATCH steps; B's writes are all placed between the last WATCH and MULTI (any command
+    // issued while the executor is in MULTI is queued, whoever sent it)
+    let mut watched: Vec<WatchRec> = Vec::new();
+    for w in &sc.watches {
+        match w {
+            WatchStep::Watch(ks) => {
+                let mut keys: Vec<Vec<u8>> = ks.iter().map(|k| key_of(*k)).collect();
+                keys.dedup();
+                let mut c = vec![b("WATCH")];
+                c.extend(keys.iter().cloned());
+                let r = ex(&mut e, &c);
+                if r != Some(Reply::ok()) {
+                    return Err(format!("{} answered {:?}", show_argv(&c), r.map(|x| x.show())));
+                }
+                let d = dump_executor(&mut e, &extra);
+                for k in keys {
+                    watched.push(WatchRec {
+                        at_watch: d.get(&k).cloned(),
+                        key: k,
+                    });
+                }
+            }
+            WatchStep::Unwatch => {
+                let r = ex(&mut e, &argv(&["UNWATCH"]));
+                if r != Some(Reply::ok()) {
+                    return Err(format!("UNWATCH answered {:?}", r.map(|x| x.show())));
+                }
+                watched.clear();
+            }
+        }
+    }
+    let mut b_after_watch = false;
+    for act in &sc.b {
+        let d = dump_executor(&mut e, &extra);
+        for c in resolve_b(&act.op, &d) {
+            both(&mut e, &mut twin, &c);
+        }
+        b_after_watch = !watched.is_empty();
+    }
+    // the visible keyspace right before MULTI = at EXEC time, provided nothing changes while
+    // commands are queued (checked on the executor's public data map after every command:
+    // inside MULTI every command, also a read, would be queued)
+    let before_end = dump_executor(&mut e, &extra);
+    let r = ex(&mut e, &argv(&["MULTI"]));
+    if r != Some(Reply::ok()) {
+        return Err(format!("MULTI answered {:?}", r.map(|x| x.show())));
+    }
+    let data_at_multi = e.get_data().clone();
+    let mut obs = TxObs {
+        queued: Vec::new(),
+        flagged: false,
+    };
+    for item in &sc.body {
+        let a = item.argv();
+        let Some(r) = ex(&mut e, &a) else { continue };
+        match item {
+            BodyItem::NestedMulti | BodyItem::WatchInside(_) => {
+                if !r.is_error() {
+                    return Err(format!("{} inside MULTI answered {} — expected an error reply", show_argv(&a), r.show()));
+                }
+            }
+            _ => {
+                if !is_queued(&r) {
+                    return Err(format!("{} inside MULTI answered {} — expected +QUEUED", show_argv(&a), r.show()));
+                }
+                obs.queued.push(a.clone());
+            }
+        }
+        if *e.get_data() != data_at_multi {
+            return Err(format!("{} sent inside MULTI (answered {}) changed the executor's data before EXEC", show_argv(&a), r.show()));
+        }
+    }
+    let end = if sc.exec { argv(&["EXEC"]) } else { argv(&["DISCARD"]) };
+    let end_reply = ex(&mut e, &end).ok_or("EXEC did not parse")?;
+    let after = dump_executor(&mut e, &extra);
+    let changed: Vec<&WatchRec> = watched
+        .iter()
+        .filter(|w| w.at_watch.as_ref() != before_end.get(&w.key))
+        .collect();
+    ctx.label(if sc.exec { "exec" } else { "discard" });
+    if !watched.is_empty() {
+        ctx.label("with_watch");
+        if !changed.is_empty() {
+            ctx.label("watched_value_changed");
+        } else if b_after_watch {
+            ctx.label("watched_value_same_after_b");
+        }
+    }
+    if !sc.exec {
+        if end_reply != Reply::ok() {
+            return Err(format!("DISCARD answered {}", end_reply.show()));
+        }
+        if after != before_end {
+            return Err(format!("DISCARD changed the data:\n{}", diff_dumps(&before_end, &after)));
+        }
+    } else if !changed.is_empty() {
+        if !is_nil(&end_reply) {
+            return Err(format!(
+                "watched key {:?} changed between WATCH and EXEC; EXEC must answer nil, it answered {}",
+                vcore::show(&changed[0].key),
+                end_reply.show()
+            ));
+        }
+        if after != before_end {
+            return Err(format!("EXEC answered nil but the data changed:\n{}", diff_dumps(&before_end, &after)));
+        }
+    } else {
+        if is_nil(&end_reply) {
+            return Err(format!(
+                "no watched key changed its value ({} watched), EXEC must apply; it answered {}",
+                watched.len(),
+                end_reply.show()
+            ));
+        }
+        let got = end_reply
+            .as_array()
+            .ok_or_else(|| format!("EXEC answered {} — expected an array", end_reply.show()))?;
+        if got.len() != obs.queued.len() {
+            return Err(format!("EXEC returned {} results for {} queued commands", got.len(), obs.queued.len()));
+        }
+        for (i, c) in obs.queued.iter().enumerate() {
+            let expect = ex(&mut twin, c).map(|r| normalise(c, &r));
+            let g = normalise(c, &got[i]);
+            if Some(&g) != expect.as_ref() {
+                return Err(format!(
+                    "EXEC result #{} for {} is {} but the same command executed outside a transaction answers {:?}",
+                    i,
+                    show_argv(c),
+                    g.show(),
+                    expect.map(|x| x.show())
+                ));
+            }
+        }
+        let td = dump_executor(&mut twin, &extra);
+        if after != td {
+            return Err(format!("data after EXEC differs from the sequential run:\n{}", diff_dumps(&after, &td)));
+        }
+    }
+    // the transaction is over: a following command executes immediately
+    let r = ex(&mut e, &argv(&["PING"]));
+    if r != Some(Reply::Simple(b"PONG".to_vec())) {
+        return Err(format!("PING after the transaction answered {:?}", r.map(|x| x.show())));
+    }
+    let writes = obs.queued.iter().filter(|c| is_write(c)).count();
+    if (obs.queued.len() >= 2 && writes >= 1) || (!watched.is_empty() && b_after_watch) {
+        ctx.nontrivial(&serde_json::to_string(sc).unwrap_or_default());
+    }
+    Ok(())
+}
+
+fn main() {
+    let args = vcore::parse_args();
+    let s = Session::new(
+        "C05",
+        Level::Exploration,
+        "scripts: client A = optional WATCH/UNWATCH steps over 8 keys (string, list, hash, set, zset, missing), MULTI, body of 0-8 items \
+         (the data-command grammar incl. run-time failures, unknown commands, wrong arity, nested MULTI, WATCH inside MULTI, PING/ECHO), EXEC or DISCARD, \
+         optional second transaction; client B = 0-4 actions (generated writes, change-then-restore, same-value rewrite, certain change, delete) placed before any of A's steps \
+         up to EXEC; 1 or 4 shards. Tier 2 runs the same scripts single-client against one CommandExecutor. \
+         non-trivial = (>= 2 queued commands with >= 1 write) or (a WATCH with >= 1 B action placed after it); distinct by the whole script",
+        &args,
+    );
+    s.assume("the twin server (fresh state, same shard count) fed the same effective commands and then A's body outside a transaction defines 'executing them consecutively in order'");
+    s.assume("keyspace dumps through ordinary read commands sent straight to the shared ShardedActorState (KEYS/TYPE/GET/LRANGE/SMEMBERS/HGETALL/ZRANGE/PTTL) observe the keyspace");
+    s.assume("WATCH expectation = full typed value comparison WATCH-time vs EXEC-time (the code documents value comparison, not Redis' dirty flag, as intentional); nil bulk and nil array both count as EXEC's nil");
+    s.assume("nested MULTI and WATCH inside MULTI answer an error and leave the transaction open and unflagged (Redis behaviour, documented in the handler)");
+    s.assume("no expiry commands, SPOP/RANDOMKEY, SCAN: replies depend on the wall clock or on hash-map order");
+
+    s.probe(
+        KF_WATCH_GET,
+        json!({"A": ["WATCH k1", "MULTI", "SET k0 x", "EXEC"], "B": "RPUSH k1 c between WATCH and MULTI", "setup": "RPUSH k1 a b"}),
+        || {
+            let sc = Script {
+                shards: 1,
+                seed_types: true,
+                setup: vec![],
+                watches: vec![WatchStep::Watch(vec![key_idx(1)])],
+                body: vec![BodyItem::Cmd(argv(&["SET", "k0", "x"]))],
+                exec: true,
+                b: vec![BAction {
+                    at: 0x8000,
+                    op: BOp::Write(argv(&["RPUSH", "k1", "c"])),
+                }],
+                tail: None,
+            };
+            s.strict_eval(|ctx| check_conn_script(&sc, ctx)).err()
+        },
+    );
+    s.probe(
+        KF_CONN_LEVEL,
+        json!({"A": ["MULTI", "ACL WHOAMI", "EXEC"]}),
+        || {
+            let sc = Script {
+                shards: 1,
+                seed_types: false,
+                setup: vec![],
+                watches: vec![],
+                body: vec![BodyItem::ConnLevel(argv(&["ACL", "WHOAMI"]))],
+                exec: true,
+                b: vec![],
+                tail: None,
+            };
+            s.strict_eval(|ctx| check_conn_script(&sc, ctx)).err()
+        },
+    );
+
+    s.describe_check("conn_scripts", "two real connection handlers on one ShardedActorState in lock-step; twin server for the sequential run");
+    s.run_cases("conn_scripts", s.scale(25_000, 750_000), || script(false), check_conn_script);
+    s.describe_check(
+        "conn_level_scripts",
+        "the same with connection-level commands (ACL WHOAMI/USERS, AUTH, HELLO) allowed in the body: scripts containing one are excluded (counted) while KF-C05-02 is open",
+    );
+    s.run_cases("conn_level_scripts", s.scale(1_500, 30_000), || script(true), check_conn_script);
+    s.describe_check("exec_scripts", "executor-level MULTI/EXEC/WATCH on one CommandExecutor; twin executor for the sequential run");
+    s.run_cases("exec_scripts", s.scale(40_000, 1_000_000), || script(false), check_exec_script);
+    s.finish();
+}
+
+fn key_idx(i: usize) -> u16 {
+    (((i << 16) / NKEYS) + 1) as u16
+}
